@@ -5,12 +5,15 @@
 package ctfe
 
 import (
+	"bytes"
 	"context"
 	"crypto/ecdsa"
+	"encoding/base64"
 	"errors"
 	"net/http"
 
 	ct "github.com/google/certificate-transparency-go"
+	"github.com/google/certificate-transparency-go/x509"
 	"github.com/google/trillian"
 	"google.golang.org/grpc/codes"
 )
@@ -211,4 +214,54 @@ func Harness_C08_wrapper() {
 	default:
 		vAssert(w.status == 0 || w.status == http.StatusOK, "success is not turned into an error")
 	}
+}
+
+// Harness_C08_getRoots: get-roots needs no backend: it answers 200 with exactly the DER of the
+// log's trusted certificates, in pool order, and never touches the backend; through the wrapper a
+// POST is refused with 405.
+//
+//verif:opt maxpaths=2000 reach=served,wrongmethod
+func Harness_C08_getRoots() {
+	be, rl := &envBackend{}, &envReqLog{}
+	li := envLogInfo(be, rl)
+	n := vChoice("n-roots", 3)
+	var ders [][]byte
+	for i := 0; i < n; i++ {
+		d := append([]byte{0x30, byte(i)}, vBytes("root", 1+vChoice("root-len", 2))...)
+		ders = append(ders, d)
+		li.validationOpts.trustedRoots.AddCert(&x509.Certificate{Raw: d, RawSubject: []byte{byte(i)}})
+	}
+	h := AppHandler{Info: li, Handler: getRoots, Name: GetRootsName, Method: http.MethodGet}
+	w := &envWriter{}
+	r := envGet(nil)
+	if vChoice("post", 2) == 1 {
+		r.Method = http.MethodPost
+		h.ServeHTTP(w, r)
+		vAssert(w.status == http.StatusMethodNotAllowed && be.calls == 0, "wrong method refused with 405")
+		vReach("wrongmethod")
+		return
+	}
+	h.ServeHTTP(w, r)
+	vAssert((w.status == 0 || w.status == http.StatusOK) && be.calls == 0, "get-roots answers 200 without a backend call")
+	var served [][]byte
+	if vSymbolic() {
+		// JSON is a codec token under the engine: the body decodes to the very map the handler
+		// encoded, whose "certificates" entry holds the DER strings (base64 is JSON's rendering of []byte)
+		var m map[string]interface{}
+		vAssert(vJSONDecode(w.body, &m) == nil, "the body is one JSON object")
+		served, _ = m["certificates"].([][]byte)
+	} else {
+		var rsp ct.GetRootsResponse
+		vAssert(vJSONDecode(w.body, &rsp) == nil, "the body is a get-roots response")
+		for _, c := range rsp.Certificates {
+			d, err := base64.StdEncoding.DecodeString(c)
+			vAssert(err == nil, "entries are base64")
+			served = append(served, d)
+		}
+	}
+	vAssert(len(served) == n, "one entry per trusted certificate")
+	for i := 0; i < n && i < len(served); i++ {
+		vAssert(bytes.Equal(served[i], ders[i]), "each entry is that certificate's DER, in pool order")
+	}
+	vReach("served")
 }
